@@ -76,8 +76,9 @@ def hydro_replay(ctx, nproc=3):
         info["reason"] = "no build-script executable found"
         return info, []
     exe = max(cands, key=os.path.getmtime)
-    cdir = os.path.join(vlib.ROOT, "harness", "h_hydro_b") if vlib.REPO == "/repo" else \
-        os.path.join(vlib.WORK, "harness_alt", "h_hydro_b")
+    # the working directory only has to exist (flows_table.rs is included at compile time); the copy under
+    # work/harness_alt may be removed concurrently by another seedcheck run
+    cdir = os.path.join(vlib.ROOT, "harness", "h_hydro_b")
     outs = []
     for j in range(nproc):
         od = os.path.join(ctx.workdir, "hydro_out_%d" % j)
@@ -122,6 +123,12 @@ def main(ctx):
     ctx.log("building harness", CRATE)
     ok, bindir, blog = vlib.cargo_build(CRATE, GROUP)
     binary = os.path.join(bindir, BIN)
+    if ok:
+        # private copy: the shared alternative-checkout target dir can be rebuilt by a concurrent run
+        import shutil
+        mine = os.path.join(ctx.workdir, "h_partition_bin")
+        shutil.copy2(binary, mine)
+        binary = mine
     corr_fail = []
     cases, results, verd, detail = [], [], [], []
     # source scan
@@ -143,7 +150,13 @@ def main(ctx):
             cases = P.gen_programs(ctx.rng, ctx.tier, 220 if ctx.tier == "quick" else 1500, corpus="C18")
         ctx.log("compiling %d programs x4 in-process, x%d processes" % (len(cases), NPROC + 1))
         results, verd, detail = run_all(ctx, binary, cases)
-    hydro_info, hydro_diffs = ({"status": "skipped", "reason": "replay mode"}, []) if ctx.replay else hydro_replay(ctx)
+    if ctx.replay:
+        hydro_info, hydro_diffs = {"status": "skipped", "reason": "replay mode"}, []
+    else:
+        try:
+            hydro_info, hydro_diffs = hydro_replay(ctx)
+        except Exception as e:  # never let the secondary replay take the check down
+            hydro_info, hydro_diffs = {"status": "skipped", "reason": "exception: %s" % str(e)[:200]}, []
     ctx.log("hydro-level replay:", hydro_info)
     if hydro_diffs:
         path = vlib.write_replay(ctx, {"property": "C42", "kind": "property-fails-on-implementation",
